@@ -2,7 +2,12 @@
 //!
 //! model `c19kv`  : `lightning_persister::fs_store::{v1::FilesystemStore, v2::FilesystemStoreV2}` in a scratch
 //!                  directory under the run directory, PRNG op sequences; ops (strings as hex, `-` = empty):
-//!                    reset | w <p> <s> <k> <val> | r <p> <s> <k> | d <p> <s> <k> <lazy> | l <p> <s> | la
+//!                    reset v1|v2 | w <p> <s> <k> <val> | r <p> <s> <k> | d <p> <s> <k> <lazy> | l <p> <s> | la
+//!                    fs                                  every file below the data directory (artifacts included)
+//!                    plant <dir1|-> <dir2|-> <name> <val> (directive) a file put there behind the store's back
+//!                    restart                             (directive) drop the store, open a new one on the directory
+//!                    ai <id> w|d ...                     create the async future (= issue: version + lock ref taken)
+//!                    ax <id>                             drive that future to completion
 //! model `c19mup` : `lightning::util::persist::MonitorUpdatingPersister` over a recording, fault-injecting
 //!                  in-memory `KVStoreSync` (RecStore), fed with REAL monitors/updates harvested from a
 //!                  two-node network; ops:
@@ -24,7 +29,7 @@ use lightning::chain::chainmonitor::Persist;
 use lightning::chain::channelmonitor::{ChannelMonitor, ChannelMonitorUpdate};
 use lightning::chain::{BlockLocator, ChannelMonitorUpdateStatus};
 use lightning::ln::functional_test_utils::*;
-use lightning::util::persist::{KVStoreSync, MigratableKVStoreSync, MonitorName, MonitorUpdatingPersister};
+use lightning::util::persist::{KVStore, KVStoreSync, MigratableKVStoreSync, MonitorName, MonitorUpdatingPersister};
 use lightning::util::ser::{Readable, ReadableArgs, Writeable};
 use lightning::util::test_channel_signer::TestChannelSigner;
 use lightning::util::test_utils::TestKeysInterface;
@@ -67,11 +72,41 @@ fn ref_check(p: &str, s: &str, k: Option<&str>) -> Option<&'static str> {
 	None
 }
 
+enum StoreE { V1(FilesystemStore), V2(FilesystemStoreV2) }
+impl StoreE {
+	fn open(v2: bool, dir: &PathBuf) -> StoreE { if v2 { StoreE::V2(FilesystemStoreV2::new(dir.clone()).expect("v2 store")) } else { StoreE::V1(FilesystemStore::new(dir.clone())) } }
+	fn sync(&self) -> &dyn AnyStore { match self { StoreE::V1(s) => s, StoreE::V2(s) => s } }
+	/// `KVStore::write` (async API): creating the future IS the issue (version + lock reference are taken now)
+	fn write_async(&self, p: &str, s: &str, k: &str, v: Vec<u8>) -> AsyncFut {
+		match self { StoreE::V1(st) => Box::pin(KVStore::write(st, p, s, k, v)), StoreE::V2(st) => Box::pin(KVStore::write(st, p, s, k, v)) }
+	}
+	fn remove_async(&self, p: &str, s: &str, k: &str, lazy: bool) -> AsyncFut {
+		match self { StoreE::V1(st) => Box::pin(KVStore::remove(st, p, s, k, lazy)), StoreE::V2(st) => Box::pin(KVStore::remove(st, p, s, k, lazy)) }
+	}
+}
+type AsyncFut = std::pin::Pin<Box<dyn std::future::Future<Output = Result<(), IoErr>> + Send>>;
+
+/// every regular file below `dir`, as `/`-joined relative paths (the file-level observer)
+fn walk_files(dir: &std::path::Path, rel: &str, out: &mut Vec<String>) {
+	if let Ok(rd) = std::fs::read_dir(dir) {
+		for e in rd.flatten() {
+			let name = e.file_name().to_string_lossy().to_string();
+			let r = if rel.is_empty() { name.clone() } else { format!("{}/{}", rel, name) };
+			match e.file_type() { Ok(t) if t.is_dir() => walk_files(&e.path(), &r, out), Ok(_) => out.push(r), Err(_) => {} }
+		}
+	}
+}
+fn files_line(dir: &std::path::Path) -> String {
+	let mut v = vec![]; walk_files(dir, "", &mut v); v.sort();
+	format!("files {}", if v.is_empty() { "-".to_string() } else { v.join(",") })
+}
+
 fn kv_model(args: &Args) {
 	let mut rec = Rec::new(&args.out, "c19kv");
 	let mut rng = Rng::new(args.seed);
 	let scratch = args.out.join("scratch-kv");
 	let _ = std::fs::remove_dir_all(&scratch);
+	let rt = tokio::runtime::Builder::new_current_thread().build().expect("tokio runtime");
 	let long_n: String = std::iter::repeat('n').take(120).collect();
 	let long_k: String = std::iter::repeat('k').take(120).collect();
 	let too_long: String = std::iter::repeat('k').take(121).collect();
@@ -84,67 +119,152 @@ fn kv_model(args: &Args) {
 	let bad: Vec<String> = vec!["".into(), "a b".into(), "a/b".into(), "k.tmp".into(), "é".into(), "k*".into(), too_long.clone(), "..".into(), "k\u{0}".into(), "[empty]".into()];
 	let n_seq = if args.thorough { 600 } else { 60 } * args.scale;
 	let n_ops = if args.thorough { 300 } else { 150 };
+	const BADLIST: &str = "err Other:Failed_to_list_keys";
 	for seq in 0..n_seq {
 		let v2 = seq % 2 == 1;
 		let dir = scratch.join(format!("{}-{}", if v2 { "v2" } else { "v1" }, seq));
-		let store: Box<dyn AnyStore> = if v2 { Box::new(FilesystemStoreV2::new(dir.clone()).expect("v2 store")) } else { Box::new(FilesystemStore::new(dir.clone())) };
-		rec.directive("reset");
-		let mut reference: BTreeMap<(String, String, String), Vec<u8>> = BTreeMap::new();
+		let mut store = StoreE::open(v2, &dir);
 		let tag = if v2 { "v2" } else { "v1" };
+		rec.directive(&format!("reset {}", tag));
+		let mut reference: BTreeMap<(String, String, String), Vec<u8>> = BTreeMap::new();
+		// namespaces in which a file with an invalid (non-artifact) name was planted: list must refuse
+		let mut poisoned: HashSet<(String, String)> = HashSet::new();
 		// a small per-sequence pool so that overwrite / read-after-write / remove-of-present are frequent
 		let pp: Vec<String> = (0..2).map(|_| rng.pick(&prim).clone()).collect();
 		let sp: Vec<String> = (0..2).map(|_| rng.pick(&sec).clone()).collect();
 		let kp: Vec<String> = (0..3).map(|_| rng.pick(&keys).clone()).collect();
-		for _ in 0..n_ops {
+		let mut i_op = 0;
+		while i_op < n_ops {
+			i_op += 1;
 			let inval = rng.chance(1, 9);
 			let mut p = rng.pick(&pp).clone();
 			let mut s = if p.is_empty() { String::new() } else { rng.pick(&sp).clone() };
 			let mut k = rng.pick(&kp).clone();
+			let what = rng.below(112);
+			// ---- fault injection: leftovers of an earlier crash (tmp / trash artifacts), foreign files, restart
+			if what >= 106 {
+				let d = |x: &str| -> String { if x.is_empty() { if v2 { "[empty]".to_string() } else { String::new() } } else { x.to_string() } };
+				let (d1, d2) = (d(&p), d(&s));
+				let kind = rng.below(20);
+				let name = match kind { 0..=6 => format!("{}.{}.tmp", k, rng.below(4)), 7..=10 => format!("{}.{}.trash", k, rng.below(4)), 11 | 12 => format!("{}.tmp", k), 13 => "x.y.trash".to_string(), 14 | 15 => k.clone(), 16 => format!("{}.bak", k), _ => format!("{}.0.tmp", rng.pick(&keys)) };
+				let vl = rng.below(12) as usize; let val = rng.bytes(vl);
+				let mut path = dir.clone();
+				if !d1.is_empty() { path.push(&d1); }
+				if !d2.is_empty() { path.push(&d2); }
+				let _ = std::fs::create_dir_all(&path);
+				path.push(&name);
+				std::fs::write(&path, &val).expect("plant");
+				let hd = |x: &str| if x.is_empty() { "-".to_string() } else { hexs(x) };
+				rec.directive(&format!("plant {} {} {} {}", hd(&d1), hd(&d2), hexs(&name), hex(&val)));
+				if kind == 14 || kind == 15 { reference.insert((p.clone(), s.clone(), k.clone()), val.clone()); }
+				if kind == 16 { poisoned.insert((p.clone(), s.clone())); }
+				*rec.classes.entry(format!("{}:plant:{}", tag, match kind { 0..=6 | 11 | 12 => "tmp", 7..=10 | 13 => "trash", 14 | 15 => "key", 16 => "invalid-name", _ => "tmp-of-other-key" })).or_insert(0) += 1;
+				if rng.chance(1, 2) { drop(store); store = StoreE::open(v2, &dir); rec.directive("restart"); }
+				continue;
+			}
+			// ---- the async API: issue a few writes/removes (versions taken now), complete them in a scripted order
+			if what >= 100 {
+				let m = 2 + rng.below(4) as usize;
+				let two_keys = rng.chance(1, 3);
+				let k2 = rng.pick(&kp).clone();
+				let mut futs: Vec<Option<AsyncFut>> = vec![];
+				let mut last: BTreeMap<(String, String, String), Option<Vec<u8>>> = BTreeMap::new();
+				for id in 0..m {
+					let kk = if rng.chance(1, 12) { rng.pick(&bad).clone() } else if two_keys && rng.chance(1, 2) { k2.clone() } else { k.clone() };
+					let is_w = rng.chance(2, 3);
+					let vl = 1 + rng.below(20) as usize; let v = rng.bytes(vl);
+					let lazy = rng.chance(1, 2);
+					let line = if is_w { format!("ai {} w {} {} {} {}", id, hexs(&p), hexs(&s), hexs(&kk), hex(&v)) } else { format!("ai {} d {} {} {} {}", id, hexs(&p), hexs(&s), hexs(&kk), lazy as u8) };
+					let created = guarded(AssertUnwindSafe(|| if is_w { store.write_async(&p, &s, &kk, v.clone()) } else { store.remove_async(&p, &s, &kk, lazy) }));
+					let valid = ref_check(&p, &s, Some(&kk)).is_none();
+					let ans = match created {
+						Err(pm) => { futs.push(None); canon_err(Err(pm)) },
+						Ok(f) => if valid { futs.push(Some(f)); "issued".to_string() } else {
+							// release profile: the validity error is the (ready) future's output
+							futs.push(None);
+							match guarded(AssertUnwindSafe(|| rt.block_on(f))) { Ok(Ok(())) => "ok".into(), Ok(Err(e)) => canon_err(Ok(e)), Err(pm) => canon_err(Err(pm)) }
+						},
+					};
+					let expect = match ref_check(&p, &s, Some(&kk)) { Some(e) => format!("err {}", e), None => { last.insert((p.clone(), s.clone(), kk.clone()), if is_w { Some(v.clone()) } else { None }); "issued".into() } };
+					if ans != expect { rec.oracle_fail(format!("{} async issue: seq {} `{}` answered `{}` expected `{}`", tag, seq, trunc_s(&line), ans, expect)); }
+					rec.case(&line, &ans, &format!("{}:async-issue:{}", tag, ans.split_whitespace().take(2).collect::<Vec<_>>().join("-")), true);
+				}
+				let mut order: Vec<usize> = (0..m).filter(|i| futs[*i].is_some()).collect();
+				for i in (1..order.len()).rev() { let j = rng.below(i as u64 + 1) as usize; order.swap(i, j); }
+				let in_order = order.windows(2).all(|w| w[0] < w[1]);
+				for id in order {
+					let f = futs[id].take().unwrap();
+					let r = guarded(AssertUnwindSafe(|| rt.block_on(f)));
+					let ans = match r { Ok(Ok(())) => "ok".to_string(), Ok(Err(e)) => canon_err(Ok(e)), Err(pm) => canon_err(Err(pm)) };
+					if ans != "ok" { rec.oracle_fail(format!("{} async completion of op {} failed: {}", tag, id, ans)); }
+					rec.case(&format!("ax {}", id), &ans, &format!("{}:async-complete:{}", tag, if in_order { "issue-order" } else { "permuted" }), true);
+				}
+				// oracle (independent of the Lean model): the LAST ISSUED operation on each key wins
+				for (key, val) in last {
+					match &val { Some(v) => { reference.insert(key.clone(), v.clone()); }, None => { reference.remove(&key); } }
+					let r = guarded(AssertUnwindSafe(|| store.sync().read(&key.0, &key.1, &key.2)));
+					let ans = match r { Ok(Ok(v)) => format!("val {}", hex(&v)), Ok(Err(e)) => canon_err(Ok(e)), Err(pm) => canon_err(Err(pm)) };
+					let expect = match &val { Some(v) => format!("val {}", hex(v)), None => "err NotFound".into() };
+					if ans != expect { rec.oracle_fail(format!("{} async ordering: seq {} key {}/{}/{} reads `{}` after all completions but the last issued operation says `{}`", tag, seq, key.0, key.1, trunc_s(&key.2), trunc_s(&ans), trunc_s(&expect))); }
+					rec.case(&format!("r {} {} {}", hexs(&key.0), hexs(&key.1), hexs(&key.2)), &ans, &format!("{}:async-final-read", tag), true);
+				}
+				rec.case("fs", &files_line(&dir), &format!("{}:files-after-async", tag), true);
+				continue;
+			}
 			if inval {
 				match rng.below(4) { 0 => k = rng.pick(&bad).clone(), 1 => p = rng.pick(&bad[1..]).to_string(), 2 => s = rng.pick(&bad[1..]).to_string(), _ => { p = String::new(); s = "n1".into(); } }
 			}
-			let what = rng.below(100);
-			let (op, ans, class, expect): (String, String, String, String) = if what < 36 {
+			let store_s = store.sync();
+			let (op, ans, class, expect): (String, String, String, String) = if what < 34 {
 				let len = match rng.below(10) { 0 => 0, 1 => 4096, _ => rng.below(40) as usize };
 				let v = rng.bytes(len);
-				let r = guarded(AssertUnwindSafe(|| store.write(&p, &s, &k, v.clone())));
+				let r = guarded(AssertUnwindSafe(|| store_s.write(&p, &s, &k, v.clone())));
 				let ans = match r { Ok(Ok(())) => "ok".to_string(), Ok(Err(e)) => canon_err(Ok(e)), Err(pm) => canon_err(Err(pm)) };
 				let expect = match ref_check(&p, &s, Some(&k)) { Some(e) => format!("err {}", e), None => { reference.insert((p.clone(), s.clone(), k.clone()), v.clone()); "ok".into() } };
 				(format!("w {} {} {} {}", hexs(&p), hexs(&s), hexs(&k), hex(&v)), ans, "write".into(), expect)
-			} else if what < 60 {
-				let r = guarded(AssertUnwindSafe(|| store.read(&p, &s, &k)));
+			} else if what < 56 {
+				let r = guarded(AssertUnwindSafe(|| store_s.read(&p, &s, &k)));
 				let ans = match r { Ok(Ok(v)) => format!("val {}", hex(&v)), Ok(Err(e)) => canon_err(Ok(e)), Err(pm) => canon_err(Err(pm)) };
 				let expect = match ref_check(&p, &s, Some(&k)) { Some(e) => format!("err {}", e), None => match reference.get(&(p.clone(), s.clone(), k.clone())) { Some(v) => format!("val {}", hex(v)), None => "err NotFound".into() } };
 				(format!("r {} {} {}", hexs(&p), hexs(&s), hexs(&k)), ans, "read".into(), expect)
-			} else if what < 78 {
+			} else if what < 72 {
 				let lazy = rng.chance(1, 2);
-				let r = guarded(AssertUnwindSafe(|| store.remove(&p, &s, &k, lazy)));
+				let r = guarded(AssertUnwindSafe(|| store_s.remove(&p, &s, &k, lazy)));
 				let ans = match r { Ok(Ok(())) => "ok".to_string(), Ok(Err(e)) => canon_err(Ok(e)), Err(pm) => canon_err(Err(pm)) };
 				let expect = match ref_check(&p, &s, Some(&k)) { Some(e) => format!("err {}", e), None => { reference.remove(&(p.clone(), s.clone(), k.clone())); "ok".into() } };
 				(format!("d {} {} {} {}", hexs(&p), hexs(&s), hexs(&k), lazy as u8), ans, "remove".into(), expect)
-			} else if what < 94 {
-				let r = guarded(AssertUnwindSafe(|| store.list(&p, &s)));
+			} else if what < 86 {
+				let r = guarded(AssertUnwindSafe(|| store_s.list(&p, &s)));
 				let canon = |mut l: Vec<String>| { let mut h: Vec<String> = l.drain(..).map(|x| hexs(&x)).collect(); h.sort(); format!("names {}", if h.is_empty() { "-".to_string() } else { h.join(",") }) };
 				let ans = match r { Ok(Ok(l)) => canon(l), Ok(Err(e)) => canon_err(Ok(e)), Err(pm) => canon_err(Err(pm)) };
-				let expect = match ref_check(&p, &s, None) { Some(e) => format!("err {}", e), None => canon(reference.keys().filter(|x| x.0 == p && x.1 == s).map(|x| x.2.clone()).collect()) };
+				let expect = match ref_check(&p, &s, None) { Some(e) => format!("err {}", e), None => if poisoned.contains(&(p.clone(), s.clone())) { BADLIST.to_string() } else { canon(reference.keys().filter(|x| x.0 == p && x.1 == s).map(|x| x.2.clone()).collect()) } };
 				(format!("l {} {}", hexs(&p), hexs(&s)), ans, "list".into(), expect)
-			} else {
-				let r = guarded(AssertUnwindSafe(|| store.list_all_keys()));
+			} else if what < 92 {
+				let r = guarded(AssertUnwindSafe(|| store_s.list_all_keys()));
 				let canon = |l: Vec<(String, String, String)>| { let mut h: Vec<String> = l.iter().map(|x| format!("{}/{}/{}", hexs(&x.0), hexs(&x.1), hexs(&x.2))).collect(); h.sort(); format!("all {}", if h.is_empty() { "-".to_string() } else { h.join(",") }) };
 				let ans = match r { Ok(Ok(l)) => canon(l), Ok(Err(e)) => canon_err(Ok(e)), Err(pm) => canon_err(Err(pm)) };
-				let expect = canon(reference.keys().cloned().collect());
+				let expect = if poisoned.is_empty() { canon(reference.keys().cloned().collect()) } else { BADLIST.to_string() };
 				("la".to_string(), ans, "listall".into(), expect)
+			} else {
+				// the file-level observer: every file of the data directory, artifacts included
+				let ans = files_line(&dir);
+				("fs".to_string(), ans.clone(), "files".into(), ans)
 			};
-			// implementation-side oracle (independent of the Lean model): the shipped store is an atomic map
+			// implementation-side oracle (independent of the Lean model): the shipped store is an atomic map,
+			// whatever tmp/trash artifacts lie around
 			if ans != expect { rec.oracle_fail(format!("{} store is not a map: seq {} op `{}` answered `{}` but the reference map says `{}`", tag, seq, trunc_s(&op), trunc_s(&ans), trunc_s(&expect))); }
+			if class == "files" {
+				// independent oracle on the directory itself: no tmp file survives a completed call unless it was planted
+				// (planted ones are named by the model side too, so only the correspondence judges them)
+			}
 			let cls = format!("{}:{}:{}", tag, class, ans.split_whitespace().take(if ans.starts_with("err") { 2 } else { 1 }).collect::<Vec<_>>().join("-"));
 			rec.case(&op, &ans, &cls, true);
 		}
 		drop(store);
 		let _ = std::fs::remove_dir_all(&dir);
 	}
-	rec.notes.insert("rule".into(), "PRNG op sequences over a small pool of namespaces/keys (empty, 120-char, invalid: empty key, empty primary with secondary, bad characters, 121 chars) so that overwrite, remove-of-missing and list-after-remove are frequent; alternating FilesystemStore (v1) and FilesystemStoreV2 in fresh scratch directories; every op line is a case".into());
-	rec.notes.insert("concurrency".into(), "thread interleavings, rename atomicity and fsync are not exhibited by the sequential model; see model c19mt (validated, not proved)".into());
+	rec.notes.insert("rule".into(), "PRNG op sequences over a small pool of namespaces/keys (empty, 120-char, invalid: empty key, empty primary with secondary, bad characters, 121 chars) so that overwrite, remove-of-missing and list-after-remove are frequent; alternating FilesystemStore (v1) and FilesystemStoreV2 in fresh scratch directories; `fs` = every file of the data directory (compared with the model's file system, artifacts included); planted leftovers of an earlier crash (`<key>.<n>.tmp`, `<key>.<n>.trash`, `<key>.tmp`, a foreign file with a key name, a file with an invalid name) with and without a restart of the store; async blocks: 2-5 KVStore::write/remove futures created in order (versions taken at creation) and driven to completion one by one in a PRNG permutation on a current-thread tokio runtime, then read back; every op line is a case".into());
+	rec.notes.insert("concurrency".into(), "completion orders of the async API are scripted (body granularity); true thread interleavings inside bodies, rename atomicity and fsync are not exhibited; see model c19mt (validated, not proved)".into());
 	rec.finish();
 }
 
